@@ -13,6 +13,8 @@ CONSTANTS
   RuleTypes = {1}
   LigLens = {2}
   Kinds = {"cff"}
+  CmapFormats = {"4"}
+  LigFirst = -1
   TextSel = "A"
   Flags = FALSE
   Quiet = TRUE
